@@ -68,6 +68,14 @@ func runC02(l *core.Ledger) {
 		l.With(map[string]string{}, func() { eps = findEntryPoints(l, r, "C02-T8") })
 		l.With(map[string]string{"C05-M1": "C02-T8"}, func() { c05M1(l, r, eps) })
 	}
+	l.Rule("C02-T9", "a successful reply is counted as a reply: decoding overwrites (C13-D7 re-run) - with a merging decoder and a reused reply envelope the status of an earlier error reply of the node stays in every later reply, which is then counted as a node error, and a call that every node answers ends Incomplete")
+	l.With(map[string]string{"C13-D7": "C02-T9"}, func() { c13D7(l, r) })
+	l.Rule("C02-T10", "the number of targeted nodes is the number of distinct nodes (C14-G2 re-run): a node listed twice is expected to answer twice and answers once, the call can only end with its context")
+	l.With(map[string]string{"C14-G2": "C02-T10"}, func() {
+		for _, c := range findCtors(l, r) {
+			c14Ctor(l, r, c)
+		}
+	})
 }
 
 // completion is a place where a reply loop fixes the call's outcome. When
